@@ -92,7 +92,13 @@ fn gen_stmt(r: &mut Rng) -> J {
     let p = *r.pick(VARS);
     let lit = |v: J| json!({"k":"lit","v":v});
     let sa = json!({"t":"str","cs":[12]});
-    let e = match r.below(32) {
+    let e = match r.below(38) {
+        36 => asg(n, call(id("max"), vec![asg(m, num(3)), num(1)])),
+        37 => asg(n, call(lam(vec!["x"], id("x")), vec![asg(if r.chance(1, 2) { n } else { m }, num(3))])),
+        32 => dob(vec![], asg(n, num(9))),
+        33 => asg(n, dob(vec![], asg(m, num(8)))),
+        34 => asg(n, dob(vec![asg(m, num(6))], asg(m, add(id(m), num(1))))),
+        35 => call(lam(vec![], dob(vec![], asg(n, num(4)))), vec![]),
         20 => asg(n, json!({"k":"rec","es":[{"m":"static","key":[12],"e":num(1)},{"m":"static","key":[13],"e":{"k":"list","xs":[num(1)]}}]})),
         21 => asg(n, lit(match r.below(3) { 0 => sa.clone(), 1 => json!({"t":"bool","b":true}), _ => json!({"t":"null"}) })),
         22 => asg(n, json!({"k":"rec","es":[{"m":"short","n":*r.pick(&["a", "b", "c"])},{"m":"static","key":[12],"e":num(2)}]})),
